@@ -31,6 +31,17 @@ def run_rules(prop: str, repo_root: str, tier: str) -> Context:
         # an analysis error (exit 2).
         import re
         m = re.match(r"method (\S+)\.(\w+) not found", str(e))
+        mn = re.match(r"nested function (\S+)\.<locals>\.(\w+) not found", str(e))
+        if mn and mn.group(1) in repo.functions:
+            # same for a closure of a factory that still exists: the factory now builds
+            # its result some other way
+            fo = repo.functions[mn.group(1)]
+            ctx.ob(f"{prop}.R0", fo, f"the factory {fo.qualname} defines the closure "
+                                     f"`{mn.group(2)}` whose body the rules interpret", False,
+                   unproven=True, detail=str(e), stmt=f"closure {mn.group(2)} vanished")
+            ctx.rule("R0", "every closure a rule interprets is defined by its factory.")
+            ctx.min_failures.clear()
+            return ctx
         if not (m and m.group(1) in repo.classes):
             raise
         ci = repo.classes[m.group(1)]
